@@ -335,6 +335,7 @@ def schedule_is_valid(N, E, R, st, sl, ix):
         ("producers-strictly-before-consumers", z3.ForAll([u, v], z3.Implies(z3.And(N.member[u], N.member[v], E[u][v], z3.Not(same_group(st, sl, u, v))), st[u] < st[v]))),
         ("groups-in-caller-order", z3.ForAll([u, v], z3.Implies(z3.And(N.member[u], N.member[v], same_group(st, sl, u, v), ix[u] < ix[v]), N.pos[u] < N.pos[v]))),
         ("no-empty-stage", FA([s], z3.Implies(z3.And(0 <= s, s < R.n), ln(seq_at(R, s)) >= 1), seq_at(R, s))),
+        ("no-empty-group", FA([s, t], z3.Implies(z3.And(0 <= s, s < R.n, 0 <= t, t < ln(seq_at(R, s))), ln(seq_at(R, s, t)) >= 1), seq_at(R, s, t))),
     ]
 
 
